@@ -674,12 +674,19 @@ class StatT:
         """test -> Lean Bool"""
         if isinstance(node, ast.BoolOp):
             op = ' && ' if isinstance(node.op, ast.And) else ' || '
-            return '(' + op.join(self.cond(v) for v in node.values) + ')'
+            parts = [self.cond(v) for v in node.values]
+            if isinstance(node.op, ast.And):
+                parts = [q for q in parts if q != 'true'] or ['true']          # NaN guards (`v == v`) are true in the model
+                if len(parts) == 1: return parts[0]
+            return '(' + op.join(parts) + ')'
         if isinstance(node, ast.Compare) and len(node.ops) == 1:
             l, o, r = node.left, node.ops[0], node.comparators[0]
             if isinstance(o, (ast.IsNot, ast.Is)) and isinstance(r, ast.Constant) and r.value is None:
                 t = '(Option.isSome %s)' % self.use(ast.unparse(l))
                 return t if isinstance(o, ast.IsNot) else '(!%s)' % t
+            if isinstance(o, ast.Eq) and isinstance(l, ast.Name) and isinstance(r, ast.Name) and l.id == r.id and l.id != 'iters':
+                # `v == v`: the floating-point idiom for "v is not NaN"; NaN is outside the model (an ordered field), where the test is true
+                self.use(l.id); return 'true'
             if isinstance(o, ast.Eq) and ast.unparse(l) == 'iters':
                 return '(iters == %s)' % self.use(ast.unparse(r))
             sym = {ast.Lt: '<', ast.LtE: '≤', ast.Gt: '>', ast.GtE: '≥'}.get(type(o))
